@@ -45,7 +45,7 @@ func C04(c *Ctx) {
 	r.Trusted = []string{"the sanitizer table (constructs public by construction in kyber)", "AES-GCM/scrypt/ECIES", "VTA call graph", "errors do not carry secret bytes"}
 	r.Rule("C04/R1", "no secret reaches a result operation, a board-bound message or a log line", 8)
 	r.Rule("C04/R2", "at-rest: encrypt before Put; loaders decrypt and stop on error", 6)
-	r.Rule("C04/R3", "a deal is encrypted for, and addressed to, the same participant", 3)
+	r.Rule("C04/R3", "a deal is encrypted for, and addressed to, the same participant", 5)
 	r.Rule("C04/R4", "round entropy derives from the round id and the base seed", 2)
 	c04Flow(c)
 	c04AtRest(c)
@@ -312,6 +312,17 @@ func c04Addressee(c *Ctx) {
 			}
 		})
 		r.Check(ok, "C04/R3", "airgapped.deals-handler:addressed-to", "the message carrying the deal is addressed to the participant it was encrypted for", c.Pos(fn.Pos()), "o.To is not GetParticipantByIndex(index) of the same index")
+	}
+	// the two lookups the binding rests on answer for the entry asked for: the key of participant NAME is the PK of the
+	// stored entry whose Participant equals NAME; the participant at position i is the entry at i (a remembered position
+	// or a cache keyed otherwise hands out another participant's key: the deal would be readable by the wrong party)
+	if fn := c.Fn("C04/R3", "dkg", "DKG", "GetPubKeyByParticipant"); fn != nil {
+		why := keyedLookup(c, fn, 1, "Participant", "PK", 0)
+		r.Check(why == "", "C04/R3", "dkg.GetPubKeyByParticipant:key-of-that-participant", "the key returned for a participant name is the PK of the stored entry with that name", c.Pos(fn.Pos()), why)
+	}
+	if fn := c.Fn("C04/R3", "dkg", "DKG", "GetParticipantByIndex"); fn != nil {
+		why := keyedLookup(c, fn, 1, "", "Participant", 0)
+		r.Check(why == "", "C04/R3", "dkg.GetParticipantByIndex:entry-at-that-position", "the participant returned for a position is the stored entry at that position", c.Pos(fn.Pos()), why)
 	}
 	// the keys the deals are encrypted to are the ones announced for THIS round: every key registered in the round's
 	// instance is a fresh point decoded from the DkgPubKey of the same entry of this operation's participant list
